@@ -88,6 +88,7 @@ Next == \E t \in {1, 2} : \E e \in Ops(t, objs[t], IF t = 1 THEN MaxLen1 ELSE Ma
 Spec == Init /\ [][Next]_vars
 
 Refines == [][/\ C!C_List(objs[last'.t], last', objs'[last'.t])
+              /\ C!C_SetDataNames(last', objs'[last'.t])
               /\ C!C_Frame(objs, last', objs')]_vars
 EmitEdge == Emit => PrintT(ToJson([pre |-> objs, e |-> last', post |-> objs']))
 Strip(L) == [i \in DOMAIN L |-> <<L[i].o, L[i].s, L[i].m, L[i].a>>]
